@@ -61,14 +61,14 @@ def stalled_task_policy(rng, spec, nw):
     if rng.random() < 0.5:
         picks = [max(cands)] + [p for p in picks if p != max(cands)][:1]        # the dependency defined last is the one most likely still running
     return {'seed': rng.randrange(1 << 30), 'base': rng.choice(['random', 'rr', 'random']), 'flavour': 'stalled-task',
-            'stall_task': [[rng.choice(['start', 'ret', 'ret', 'dump', 'unlock', 'lock']), t + 1, rng.choice([40, 120, 400])] for t in picks]}
+            'stall_task': [[rng.choice(['start', 'ret', 'ret', 'dump', 'unlock', 'lock']), t + 1, rng.choice([60, 200, 600])] for t in picks]}
 
 
 def scenarios(ck):
     rng = ck.rng
     yield X.sanity_scenario()
-    n_rich = ck.n(130, 2200)
-    n_map = ck.n(110, 2000)
+    n_rich = ck.n(100, 1500)
+    n_map = ck.n(90, 1500)
     n_fail = ck.n(40, 600)
     for i in range(n_map):
         # consumers of mapped sequences: whole, elements, chunks, slices ending inside a block, reversed slices, slices of slices
@@ -79,6 +79,15 @@ def scenarios(ck):
         pol = stalled_task_policy(rng, spec, nw) if r < 0.6 else (stalled_dep_policy(rng, nw) if r < 0.8 else X.gen_policy(rng, nw))
         yield {'program': spec, 'backend': X.pick_backend(rng, (5, 2, 1, 2)), 'prefill': [], 'keep_going': rng.random() < 0.3, 'keep_failed': False,
                'phases': [{'workers': [{'nr_wait': rng.choice([1, 2, 3, 6]), 'unload': rng.random() < 0.4} for _ in range(nw)], 'policy': pol}]}
+    for i in range(ck.n(90, 2000)):
+        # single-path programs: most tasks take exactly one task-carrying argument (a tasklet chain, a container, a mapped slice ...), so
+        # every dependency edge enters through one syntactic path only; the executor of one of the dependencies is parked inside it
+        nt = rng.randint(3, 7)
+        spec = X.gen_program(rng, nt, clean=True, rich=1.0, single_path=0.8, use_map=rng.random() < 0.25, chainy=0.2)
+        nw = rng.randint(2, 4)
+        pol = stalled_task_policy(rng, spec, nw) if rng.random() < 0.75 else stalled_dep_policy(rng, nw)
+        yield {'program': spec, 'backend': X.pick_backend(rng, (6, 2, 1, 2)), 'prefill': [], 'keep_going': rng.random() < 0.3, 'keep_failed': False,
+               'phases': [{'workers': [{'nr_wait': rng.choice([2, 3, 6]), 'unload': rng.random() < 0.4} for _ in range(nw)], 'policy': pol}]}
     for i in range(n_rich):
         nt = rng.randint(2, 7)
         spec = X.gen_program(rng, nt, clean=True, rich=rng.choice([0.7, 0.9, 1.0]), use_map=rng.random() < 0.4, chainy=rng.choice([0.3, 0.6]))
